@@ -366,10 +366,16 @@ func jobAlg(j *jobCtx) {
 							continue
 						}
 						viaRemove := (ai+bi)%2 == 1
-						a := buildSet(c.kind, f, am, viaRemove, n)
-						b := a
-						if !alias {
-							b = buildSet(c.kind, f, bm, !viaRemove, n)
+						var a, b sets.Set[int]
+						gi := guard("alg", c.kind, "Build", func() {
+							a = buildSet(c.kind, f, am, viaRemove, n)
+							b = a
+							if !alias {
+								b = buildSet(c.kind, f, bm, !viaRemove, n)
+							}
+						})
+						if gi.Panic || a == nil || b == nil {
+							continue
 						}
 						e := Ev{"fam": "alg", "kind": c.kind, "cfg": cfg, "op": op, "alias": alias, "rs": 1, "timeout": false,
 							"a0": observeSet(a, probe), "b0": observeSet(b, probe)}
